@@ -77,14 +77,26 @@ def build(case):
         bad = np.where(np.array([rng.random() < v["p_inf"] for _ in range(n)]
                                 ).reshape(shape), np.inf, np.nan)
         vals = np.where(mask, bad, vals)
+        if v.get("dtype") == "complex":
+            # complex data: a NaN or an infinity in either part makes an
+            # entry non-finite
+            vals = np.array(vals + 1j * np.where(np.isfinite(vals),
+                                                 vals / 2, 0.0))
         if v.get("dtype") == "bool":
             # a flag stored next to the numbers: never null, always data
             vals = np.array([rng.random() < 0.5 for _ in range(n)]
                             ).reshape(shape)
         data_vars[v["name"]] = (tuple(vd), vals)
         info[v["name"]] = (vd, vals)
-    order = case.get("coord_order")
-    ds = xr.Dataset(data_vars, coords=coords)
+    if case.get("coords_first"):
+        # built the other way round: coordinates first, variables assigned
+        # afterwards (in the reverse order, so that the order in which
+        # dimensions first appear in the variables differs from ds.dims)
+        ds = xr.Dataset(coords=coords)
+        for name in reversed(list(data_vars)):
+            ds[name] = data_vars[name]
+    else:
+        ds = xr.Dataset(data_vars, coords=coords)
     return ds, info, coords
 
 
@@ -313,7 +325,9 @@ def strategy(draw):
             "p_elem": draw(st.sampled_from([0.0, 0.0, 0.3, 0.7])),
             "p_inf": draw(st.sampled_from([0.0, 0.0, 0.5])),
             "dtype": draw(st.sampled_from(["float", "float", "float",
-                                           "bool"])) if j > 0 else "float",
+                                           "bool", "complex"]))
+            if j > 0 else draw(st.sampled_from(["float", "float",
+                                                "complex"])),
         })
     if draw(st.booleans()) and nv > 1:
         # same mask for all variables (whole-dataset holes)
@@ -326,7 +340,8 @@ def strategy(draw):
             "method": draw(st.sampled_from(["isnull", "isnull", "isfinite"])),
             "ignore_spelling": draw(st.sampled_from(["set", "list", "str"])),
             "loop": draw(st.booleans()),
-            "refill": draw(st.sampled_from([0, 0, 1, 2]))}
+            "refill": draw(st.sampled_from([0, 0, 1, 2])),
+            "coords_first": draw(st.booleans())}
     if draw(st.booleans()):
         # a query: some dims by combos, the others by cases, incl. absent
         k = draw(st.integers(0, nd))
